@@ -818,7 +818,11 @@ META = {
                   'involution (transpose_spec, transpose_involution); dot = dense matrix times vector with an output of shape[0] entries '
                   'and no out-of-range write (matvec_spec); asmatrix denotes the sum of the data entries per layout position '
                   '(asmatrix_spec); compute_sparsity_ij on monotone support arrays is exactly the set of overlapping support pairs '
-                  '(sparsity_ij_spec). Not theorems (tie + oracle only): reorder of levels, kron_partial values, get_transpose_idx_for_bidx. '
+                  '(sparsity_ij_spec), and the supports of any knot vector satisfy its hypotheses (supports_monotone, sparsity_ij_knot_vectors); '
+                  'get_transpose_idx_for_bidx is the mirror involution and answers exactly on symmetric patterns (transpose_idx_involution, transpose_idx_defined); '
+                  'kron_partial equals the selected rows of the dense Kronecker product kron_rec, restrict=False for duplicate-free rows and restrict=True for any rows '
+                  '(kron_pos_is_kron, kron_partial_spec, kron_partial_restrict_spec, kron_pattern_distinct); level reordering puts every datum at the permuted digits '
+                  '(reorder_spec, product_nth_spec). 31 theorems. Not theorems (tie + oracle only): zero part of reorder outside the pattern, kron_partial with repeated rows and restrict=False. '
                   'The model (repaired behaviour for three defects, fixes/C15-*.patch) is tied to /repo on every run by exact comparison '
                   'of 13 observables per structure on ~650 random structures (thorough ~4400) of 1..6 levels plus reindexing tables, '
                   '~250 (thorough 1500) histories on ONE MLMatrix object (queries, reassignment of .data in C/F layout or rebuild from a dense/sparse matrix, refused wrong-size assignment, queries again; every answer compared with the model at the current data, with the dense oracle and with a fresh object; theorem history_last_assignment), '
